@@ -143,6 +143,25 @@ static jwk_set_t *do_op(long seq, int step, int op, jwk_set_t *s)
 		free(big);
 		break;
 	}
+	case 15: {	/* one document mixing good and flagged keys: every pat-th key is bad; counts straddle 32, 64, 128, 256 flagged items */
+		static const int CNT[] = { 33, 34, 40, 65, 66, 100, 129, 130, 200, 257, 258, 300, 31, 32, 64, 128 };
+		size_t cnt = n > 3000 ? 5 : (size_t)CNT[(seq * 7 + step) % 16], cap, off;
+		int pat = 1 + (int)((seq + step / 2) % 3);
+		char *big, one[200];
+		cnt *= (size_t)pat;	/* cnt flagged items among cnt*pat */
+		cap = cnt * 120 + 32; big = malloc(cap);
+		snprintf(ids, sizeof(ids), "mix:%ld:%zu:%d", next_uid, cnt, pat);
+		off = (size_t)snprintf(big, cap, "{\"keys\":[");
+		for (size_t i = 0; i < cnt; i++) {
+			if (i % (size_t)pat == 0) { last_bad_uid = next_uid; mk_bad(one, sizeof(one), next_uid++); }
+			else mk_good(one, sizeof(one), "k", next_uid++);
+			off += (size_t)snprintf(big + off, cap - off, "%s%s", i ? "," : "", one);
+		}
+		snprintf(big + off, cap - off, "]}");
+		s = load_doc(s, big, seq, step);
+		free(big);
+		break;
+	}
 	}
 	if (!s) vh_harness_fail("load returned NULL");
 	dump(seq, step, op, ret, s, ids);
@@ -183,8 +202,9 @@ int main(int argc, char **argv)
 			s = jwks_create(NULL);
 			printf("[\"N\",%ld]\n", q);
 			for (int i = 0; i < 40; i++) {
-				int op = i < 2 ? 14 : (int)vh_below(&rng, 18);
-				if (op >= 15) op = 14;
+				int op = i == 0 ? 14 : i == 1 ? 15 : (int)vh_below(&rng, 21);
+				if (op >= 18) op = 15; else if (op >= 15) op = 14;
+				if (i == 2 && (q & 1)) op = 10;
 				if (op == 11 && vh_below(&rng, 3)) op = 7;	/* free_all rarely */
 				s = do_op(q, i, op, s);
 				nops++;
